@@ -96,9 +96,9 @@ const char* excluded(unsigned form, const std::string& xml)
 {
     if (filtersOff()) return 0;
     // F-C03-xerces-dom-xmlversion: parseSource(useXercesDOM) lets xercesc::DOMException escape for <?xml version="1.5"?>
-    if (form == 1 && hasOddXmlVersion(xml)) return "excluded_by_filter:F-C03-xerces-dom-xmlversion";
+    if (filterActive("F-C03-xerces-dom-xmlversion") && (form == 1 && hasOddXmlVersion(xml))) return "excluded_by_filter:F-C03-xerces-dom-xmlversion";
     // F-C03-assert-indtd (Debug-only assertion in the native source tree builder): internal DTD subset never closed
-    if (form != 1 && form != 2 && hasUnclosedInternalSubset(xml)) return "excluded_by_filter:F-C03-assert-indtd";
+    if (filterActive("F-C03-assert-indtd") && (form != 1 && form != 2 && hasUnclosedInternalSubset(xml))) return "excluded_by_filter:F-C03-assert-indtd";
     return 0;
 }
 }  // namespace
